@@ -59,7 +59,7 @@ def strategy(tier):
 
 
 def budget(tier):
-    return 3000 if tier == "quick" else 120000
+    return 3000 if tier == "quick" else 30000
 
 
 def classify(case):
